@@ -358,9 +358,17 @@ func newWorld(s *kernel.Sim) *world {
 	w := &world{s: s, t: s.T, bg: context.Background()}
 	s.Quantum, s.IdleMax = 3*time.Second, 1 // a phase that ends blocked must not burn minutes of session lifetime
 	w.net = simnet.New(s, simnet.DrawConfig(s.T))
+	// Some servers are configured with a cache of their own: negotiated sessions still
+	// live in the global cache, so resumption then goes through the global fallback.
+	var iso *security.SessionCache
+	if s.T.Chance("isolated-server-cache", 1, 3) {
+		iso = security.NewSessionCache()
+		s.Probe("server-with-isolated-cache")
+	}
 	w.scfg = func() *security.SecurityConfig {
 		cfg := hs.Cfg(security.SecurityRequired, security.SecurityRequired, []security.AuthMethod{security.AuthClaimToBe}, hs.AES, security.NoCommand)
 		cfg.SessionDuration, cfg.SessionLease = duration, lease
+		cfg.SessionCache = iso
 		return cfg
 	}
 	return w
